@@ -12,8 +12,8 @@ import (
 	metav1 "k8s.io/apimachinery/pkg/apis/meta/v1"
 	"k8s.io/client-go/kubernetes/fake"
 
-	"verif/engine/chk"
 	k8sshard "tkestack.io/kvass/pkg/shard/kubernetes"
+	"verif/engine/chk"
 )
 
 // C18 — Kubernetes shards are ordered by ordinal; scaling deletes only removed volumes.
@@ -38,7 +38,9 @@ func c18Sts(name string, rep int32, ntmpl int, status [3]int32) *appsv1.Stateful
 	return s
 }
 
-func claimName(tmpl int, set string, ord int) string { return fmt.Sprintf("vol%d-%s-%d", tmpl, set, ord) }
+func claimName(tmpl int, set string, ord int) string {
+	return fmt.Sprintf("vol%d-%s-%d", tmpl, set, ord)
+}
 
 func listClaims(cli *fake.Clientset) []string {
 	l, err := cli.CoreV1().PersistentVolumeClaims(c18NS).List(context.TODO(), metav1.ListOptions{})
@@ -128,8 +130,8 @@ func init() {
 									mk(claimName(t, "rep1", i))
 								}
 							}
-							mk("vol0-other-0")       // a foreign claim
-							mk("vol0-rep11-0")       // a set whose name has this set's name as prefix
+							mk("vol0-other-0") // a foreign claim
+							mk("vol0-rep11-0") // a set whose name has this set's name as prefix
 							cli.ClearActions()
 							m := k8sshard.VerifNewShardManager(cli, sts, 8080, del, c18Log(), nil)
 							err := m.ChangeScale(int32(nw))
